@@ -295,6 +295,7 @@ func (c *conn) close() {
 		return
 	}
 
+	vtr("cl.begin", bin.Bin128{}, 0, 0)
 	defer c.notifyClosed()
 	defer c.delegate.onConnClosed(c)
 	defer c.closeChannels()
@@ -317,6 +318,7 @@ func (c *conn) closeChannels() {
 		return
 	}
 	c.channelsClosed.Store(true)
+	vtr("cl.range", bin.Bin128{}, 0, 0)
 
 	c.channels.Range(func(_ bin.Bin128, ch internalChannel) bool {
 		ch.free()
